@@ -29,6 +29,10 @@ class C07(common.SpecCheck):
             if r["status"] != "ok" or vs:
                 continue
             for i, run in enumerate(r["runs"]):
+                if run["exec"] == "rt_error" and "setRankIds" in run.get("error", ""):
+                    # the program tries to give a tensor rank ids that do not fit its ranks
+                    vs.append(common.Violation("rank_ids_do_not_fit_tensor", [h], {"input_set": i, "error": run["error"]}))
+                    break
                 if run["exec"] != "ok":
                     continue   # not C07's business (C02-C05 report it)
                 if run["bad_names"]:
